@@ -16,7 +16,11 @@ def richieHeaders : List Bytes :=
   [b!"Richie-Routing-Secret", b!"Richie-Request-ID", b!"Richie-Originating-IP"]
 
 /-- C05: statuses of the errors rrrouter originates through `usererror` (sorted, with multiplicity) -/
-def userErrorCodes : List Nat := [400, 404, 407, 407, 499, 502, 503, 503, 508, 508]
+def userErrorCodes : List Nat := [400, 404, 407, 407, 499, 502, 503, 503, 508, 508, 508, 508, 508, 508]
+
+/-- C18: "after a bounded number of hops" — the number of redirects restart_on_redirect follows
+    for one client request before it answers 508 (the bound of net/http's client) -/
+def maxRedirects : Nat := 10
 
 /-- C19: methods a rule may list -/
 def knownMethods : List Bytes :=
